@@ -300,7 +300,11 @@ def run_tlc(module, cfg=None, workers=None, timeout=900, simulate=None, depth=No
         _stage_spec(sc, extra_files)
     r = TLCResult()
     try:
-        cmd = ["java", "-XX:+UseParallelGC", "-Xss64m", "-Xmx" + heap]
+        # TLC unpacks its standard modules into java.io.tmpdir on every start: keep that inside the scratch directory
+        # (removed with it) instead of littering /tmp
+        jtmp = os.path.join(sc, "jtmp")
+        os.makedirs(jtmp, exist_ok=True)
+        cmd = ["java", "-XX:+UseParallelGC", "-Xss64m", "-Xmx" + heap, "-Djava.io.tmpdir=" + jtmp]
         if dfs:
             cmd += ["-Dtlc2.tool.queue.IStateQueue=StateDeque"]
         for k, v in (defines or {}).items():
